@@ -193,7 +193,7 @@ def unwrap_casts(x):
     """strip casts/moves/copies only (named locals and helper parameters are kept)"""
     while isinstance(x, dict):
         k = x.get('k')
-        if k in ('icast', 'cast', 'move', 'defarg'):
+        if k in ('icast', 'cast', 'move', 'defarg', 'retof'):
             x = x.get('e')
         elif k == 'ctor' and x.get('copy') and len(x.get('args', [])) == 1:
             x = x['args'][0]
